@@ -57,8 +57,29 @@ def correspond(run):
     run.oblige("correspondence:probminhash", "correspondence", not bad, "%d differ; first %s" % (len(bad), bad[:3]))
 
 
+def direct(run):
+    """the deterministic core on the implementation (signature = arg-min of the race whatever the entry point and the
+    signature length), cheap and always on"""
+    rc, js, out, err = vlib.harness(["pmh-props", "--seed", run.seed + 7, "--n", 120 if run.depth == "quick" else 1500], timeout=2400)
+    if rc != 0 or js is None:
+        run.oblige("direct:pmh-props", "correspondence", False, (out[-300:] + err[-300:]))
+        return
+    for f in js["found"]:
+        if f["key"] in ("3-vs-3a", "order-3", "order-2", "batch-3a", "batch-3asha", "entry-2", "batch-2", "panic"):
+            run.violation(f["key"], f["text"], {"kind": "impl-input", "sketcher": "ProbMinHash", "input": f["input"], "observed": f["text"]})
+            break
+
+
 def search(run):
     estlib.search(run, "EstPmh")
+    # the deterministic core on the implementation (signature = arg-min of the race whatever the entry point), incl. the
+    # signature lengths suggested by new literals of a changed source file
+    rc, js, out, err = vlib.harness(["pmh-props", "--seed", run.seed, "--n", 300], timeout=2400)
+    if rc == 0 and js is not None:
+        for f in js["found"]:
+            if f["key"] in ("3-vs-3a", "order-3", "order-2", "batch-3a", "batch-3asha", "entry-2", "batch-2"):
+                run.violation(f["key"], f["text"], {"kind": "impl-input", "sketcher": "ProbMinHash", "input": f["input"], "observed": f["text"]})
+                break
     rc, js, out, err = vlib.harness(["pmh-mc", "--seed", run.seed, "--trials", 3000], timeout=3000)
     if rc != 0 or js is None:
         return
